@@ -9,6 +9,9 @@
               integer contents small enough that every double operation is exact.
               A second, bit-exact tie runs the same Gallina term at primitive binary64 floats under
               vm_compute against the C (-O2 -ffp-contract=off) on arbitrary doubles.
+              A third, "wide" tie runs a_real_diag1/diag2 on sparse matrices of 2^32 .. 2^34 cells (harness/C09/wdrv.c,
+              MAP_NORESERVE) against the N-indexed model coq/C09/LinalgWide.v (harness/C09/wmdrv.ml): the only place
+              where the 64-bit width of the C's offset computation N * i is observable by running.
   3. oracle:  when the tie breaks, the property itself (mathematical definition of each routine, exact Python
               integers; guard cells intact; inputs unmodified) is evaluated on what the C produced; failing
               cases are shrunk over all smaller shapes with canonical contents and reported.
@@ -498,16 +501,261 @@ def float_tie(ctx):
     return cases, usable, bad, lines, flagged
 
 
+
+# ----------------------------------------------------------------------------------------------
+# "wide" tie: a_real_diag1 / a_real_diag2 on matrices with >= 2^32 cells (sparse: MAP_NORESERVE in the C driver,
+# association list in the N-indexed model coq/C09/LinalgWide.v).  This is where the width of the integer type in
+# which the C computes the offset N * i (a_size, 64 bit) is observable; the list model cannot be run there.
+P32 = 1 << 32
+
+
+class WCase:
+    """op in (diag1, diag2); A given by a dict index -> non-zero integer, every other cell 0."""
+    __slots__ = ("op", "d", "cells", "tag")
+
+    def __init__(self, op, d, cells, tag=""):
+        self.op, self.d, self.cells, self.tag = op, (d[0], d[1] if op == "diag2" else 0), dict(cells), tag
+
+    def mn(self):
+        return (self.d[0], self.d[0]) if self.op == "diag1" else self.d
+
+    def line(self):
+        parts = [self.op, str(self.d[0]), str(self.d[1]), str(len(self.cells))]
+        for k in sorted(self.cells):
+            parts += [str(k), str(self.cells[k])]
+        return " ".join(parts)
+
+    def key(self):
+        return "%s/%s" % (self.op, "x".join(str(v) for v in self.dims_used()))
+
+    def dims_used(self):
+        return self.d[:1] if self.op == "diag1" else self.d
+
+    def expected(self):
+        """the property: a[i] = A[i][i] = cell i*n + i of the row-major m x n matrix, i < min(m, n)"""
+        m, n = self.mn()
+        # only listed cells can be non-zero: diagonal cells are the indices divisible by n+1 with quotient < min(m,n)
+        out = {}
+        for k, v in self.cells.items():
+            if k % (n + 1) == 0 and k // (n + 1) < min(m, n) and v != 0:
+                out[k // (n + 1)] = v
+        return out
+
+    def crosses_2_32(self):
+        m, n = self.mn()
+        return min(m, n) >= 1 and (n + 1) * (min(m, n) - 1) >= P32
+
+    def as_json(self):
+        return {"wide": True, "op": self.op, "dims": list(self.dims_used()),
+                "A_nonzero_cells": {str(k): v for k, v in sorted(self.cells.items())},
+                "case_line": self.line(),
+                "note": "A is the row-major %d x %d matrix that is 0 except at the listed linear indices" % self.mn()}
+
+
+def parse_wcase(line):
+    t = line.split()
+    k = int(t[3])
+    cells = {int(t[4 + 2 * j]): int(t[5 + 2 * j]) for j in range(k)}
+    return WCase(t[0], (int(t[1]), int(t[2])), cells, "replay")
+
+
+def make_wcase(rng, op, m, n, tag=""):
+    """Sparse contents aimed at the offset computation: distinct positive values on selected diagonal cells
+    (first, last, around the first index whose offset reaches 2^32, random), distinct negative decoys on the cells
+    a narrower or shifted offset computation would read instead."""
+    if op == "diag1":
+        m = n
+    M = min(m, n)
+    ncells = m * n
+    sel = set()
+    if M <= 40:
+        sel.update(range(M))
+    else:
+        sel.update([0, 1, 2, M - 1, M - 2, M - 3])
+        i0 = -(-P32 // (n + 1))          # first i with (n+1)*i >= 2^32
+        sel.update(i for i in (i0 - 1, i0, i0 + 1, 2 * i0) if 0 <= i < M)
+        sel.update(rng.randrange(M) for _ in range(10))
+    cells = {}
+    v = 1
+    for i in sorted(sel):
+        cells[i * n + i] = v + (rng.randrange(5) if rng else 0)
+        v += 7
+    w = -1
+    for i in sorted(sel):
+        for k in (((n + 1) % P32) * i % P32, ((n + 1) * i) % P32, i * n, i * n + i + 1, i * n + i - 1, (n % P32) * i % P32 + i):
+            if 0 <= k < ncells and k not in cells:
+                cells[k] = w
+                w -= 1
+    return WCase(op, (m, n), cells, tag)
+
+
+def gen_wide_cases(ctx):
+    rng = random.Random(ctx.subseed("C09/wide"))
+    cases = []
+    wc = CORPUS / "wide.sparse"
+    if wc.exists():
+        for ln in wc.read_text().splitlines():
+            ln = ln.strip()
+            if ln and not ln.startswith("#"):
+                cases.append(parse_wcase(ln))
+                cases[-1].tag = "corpus"
+    # small sanity shapes (also run by the list model in the main tie)
+    for n in (0, 1, 2, 5):
+        cases.append(make_wcase(rng, "diag1", n, n, "small"))
+    for m, n in ((0, 3), (3, 0), (1, 4), (4, 1), (3, 5), (5, 3), (4, 4)):
+        cases.append(make_wcase(rng, "diag2", m, n, "small"))
+    # diag1: the largest offset (n+1)(n-1) = n^2 - 1 reaches 2^32 exactly from n = 65537 on
+    for n in (65535, 65536, 65537, 65538, rng.randint(65539, 92000)):
+        cases.append(make_wcase(rng, "diag1", n, n, "boundary"))
+    # diag2: square / m>n / m<n around 2^16; few rows with n around 2^31 and at UINT_MAX (N = n + 1 = 2^32)
+    shapes = [(65537, 65537), (65600, 65537), (65537, 65600), (65536, 65536), (70000, 65536),
+              (2, (1 << 31) - 1), (2, 1 << 31), (3, 1 << 31), (3, (1 << 31) + 5), (2, P32 - 1), (5, P32 - 1), (3, P32 - 2),
+              (P32 - 1, 2), (P32 - 1, 1), (1, P32 - 1)]
+    for m, n in shapes:
+        cases.append(make_wcase(rng, "diag2", m, n, "boundary"))
+    for _ in range(6 if ctx.quick else 40):
+        if rng.random() < 0.5:
+            m, n = rng.randint(2, 9), rng.randint(1 << 29, P32 - 1)
+        else:
+            m, n = rng.randint(60000, 99000), rng.randint(60000, 99000)
+        cases.append(make_wcase(rng, "diag2", m, n, "random"))
+    if not ctx.quick:
+        for _ in range(12):
+            n = rng.randint(60000, 110000)
+            cases.append(make_wcase(rng, "diag1", n, n, "random"))
+    return cases
+
+
+def woracle(case, c_line):
+    if c_line.startswith("ABORT"):
+        return "the implementation aborted under ASan/UBSan: " + c_line[:300]
+    if c_line == "NOT-RUN":
+        return None
+    t = c_line.split()
+    if t[:3] != [case.op, str(case.d[0]), str(case.d[1])]:
+        return "driver out of step: " + c_line[:80]
+    if t[3] == "no-memory":
+        return None          # the sparse mapping could not be reserved on this host: case not evaluated
+    if t[3] != "ok":
+        return "status %s (guard-lo/guard-hi: a cell before/after the result array was written; input: the matrix was modified)" % t[3]
+    got = {}
+    for tok in t[4:]:
+        i, v = tok.split(":")
+        got[int(i)] = v
+    exp = case.expected()
+    m, n = case.mn()
+    for i in sorted(set(got) | set(exp)):
+        if got.get(i, "0") != str(exp.get(i, 0)):
+            return ("result cell %d is %s, specified value A[%d][%d] = %d (linear index %d*%d+%d = %d%s)"
+                    % (i, got.get(i, "0"), i, i, exp.get(i, 0), i, n, i, i * n + i,
+                       ", beyond 2^32" if i * n + i >= P32 else ""))
+    return None
+
+
+def wide_tie(ctx, mbin_files):
+    cbin = ctx.cc("wdrv", [H / "wdrv.c"], repo_srcs=["linalg.c"], mode="asan")
+    mbin = ctx.ocaml_build("wmdrv", mbin_files + [H / "wmdrv.ml"])
+    cases = gen_wide_cases(ctx)
+    c_lines = run_c(cbin, cases, max_restarts=10, timeout=600)
+    text = "\n".join(c.line() for c in cases) + "\n"
+    rc, out, err = vlib.sh2([str(mbin)], stdin=text, timeout=600)
+    if rc != 0:
+        raise vlib.CheckError("wide model driver failed rc=%d: %s" % (rc, err[-500:]))
+    m_lines = out.splitlines()
+    if len(m_lines) != len(cases):
+        raise vlib.CheckError("wide model driver printed %d lines for %d cases" % (len(m_lines), len(cases)))
+    nomem = [i for i, l in enumerate(c_lines) if l.split()[3:4] == ["no-memory"]]
+    disagree = [i for i in range(len(cases)) if i not in nomem and (c_lines[i] if i < len(c_lines) else "NOT-RUN") != m_lines[i]]
+    fails = []
+    for i, c in enumerate(cases):
+        why = woracle(c, c_lines[i]) if i < len(c_lines) else None
+        if why:
+            fails.append((i, why))
+    # the model must itself satisfy the specification on every case (theorems diag1N_ok / diag2N_ok)
+    mfail = [i for i, c in enumerate(cases) if woracle(c, m_lines[i])]
+    if mfail:
+        ctx.tie_broken("wide model output differs from the specification on case %d (%s)" % (mfail[0], cases[mfail[0]].key()))
+    evaluated = [c for i, c in enumerate(cases) if i not in nomem]
+    ctx.count(evaluations=len(evaluated), nontrivial=sum(1 for c in evaluated if c.crosses_2_32()))
+    ctx.cov["wide_diag"] = {
+        "cases": len(evaluated), "not_evaluated_no_memory": len(nomem),
+        "with_a_diagonal_offset_>=_2^32": sum(1 for c in evaluated if c.crosses_2_32()),
+        "with_N=n+1=2^32": sum(1 for c in evaluated if c.mn()[1] == P32 - 1),
+        "largest_matrix_cells": max((c.mn()[0] * c.mn()[1] for c in evaluated), default=0),
+        "result_cells_compared": sum(min(c.mn()) for c in evaluated),
+        "disagreements": len(disagree),
+        "rule": "a_real_diag1/diag2 from $VERIF_REPO (ASan, sparse MAP_NORESERVE matrix between PROT_NONE pages, canary cells around the "
+                "result) vs the extracted N-indexed model (LinalgWide.v); every non-zero result cell compared; distinct values on "
+                "the true diagonal cells, decoys on the cells a 32-bit or shifted offset would read",
+    }
+    if evaluated:
+        c = [c for c in evaluated if c.crosses_2_32()][:1] or evaluated[:1]
+        i = cases.index(c[0])
+        ctx.sample({"wide_case": cases[i].line()[:200], "C": c_lines[i][:160], "model": m_lines[i][:160]})
+    if disagree:
+        i0 = disagree[0]
+        ctx.tie_broken("wide correspondence diag1/diag2 vs N-indexed model: %d of %d cases differ, first: case %d (%s): C '%s' / model '%s'"
+                       % (len(disagree), len(cases), i0, cases[i0].key(), c_lines[i0][:120] if i0 < len(c_lines) else "", m_lines[i0][:120]))
+    if fails and not disagree:
+        ctx.tie_broken("wide run: the C output violates the specification although it agrees with the model (case %d, %s)"
+                       % (fails[0][0], cases[fails[0][0]].key()))
+    done = ctx.__dict__.setdefault("_c09_reported", set())
+    for i, why in fails:
+        c = cases[i]
+        if "wide-" + c.op in done:
+            continue
+        done.add("wide-" + c.op)
+        # shrink: the first failing shape of an ascending list of candidates (canonical contents), else the case itself
+        if c.op == "diag1":
+            cand = [(n, n) for n in (1, 2, 3, 10, 1000, 65535, 65536, 65537) if n <= c.d[0]]
+        else:
+            cand = [s for s in ((1, 1), (2, 3), (3, 2), (3, 3), (2, (1 << 31) - 1), (2, 1 << 31), (3, 1 << 31), (2, P32 - 1),
+                                (65536, 65536), (65537, 65537)) if s[0] * s[1] <= c.d[0] * c.d[1]]
+        r0 = random.Random(0)
+        cands = [make_wcase(r0, c.op, m, n, "shrunk") for m, n in cand]
+        lines = run_c(cbin, cands, max_restarts=3, timeout=600) if cands else []
+        sc, sl, sw = c, c_lines[i], why
+        for cc_, ln in zip(cands, lines):
+            w2 = woracle(cc_, ln)
+            if w2:
+                sc, sl, sw = cc_, ln, w2
+                break
+        # then the contents: fewest non-zero cells of A on which that shape still fails
+        def still_fails(items, sc=sc):
+            t = WCase(sc.op, sc.mn(), dict(items), "shrunk")
+            return bool(woracle(t, run_c(cbin, [t], max_restarts=1, timeout=120)[0]))
+        try:
+            small = vlib.ddmin(sorted(sc.cells.items()), still_fails, max_tests=60)
+            t = WCase(sc.op, sc.mn(), dict(small), "shrunk")
+            ln = run_c(cbin, [t], max_restarts=1, timeout=120)[0]
+            w2 = woracle(t, ln)
+            if w2:
+                sc, sl, sw = t, ln, w2
+        except Exception:
+            pass
+        replay = sc.as_json()
+        replay.update({"expected_nonzero_result_cells": {str(k): v for k, v in sorted(sc.expected().items())},
+                       "observed_line": sl, "failure": sw, "found_in": "wide run", "original_case_line": c.line()[:2000],
+                       "original_failure": why, "model_line": m_lines[i],
+                       "how_to_replay": "python3 tools/vcheck.py C09 --replay <this file>   (or: echo '<case_line>' | build/C09/wdrv)"})
+        dims = "x".join(str(v) for v in sc.dims_used())
+        ctx.report(key="a_real_%s/%s" % (sc.op, dims),
+                   what="a_real_%s(%s): %s" % (sc.op, ",".join(str(v) for v in sc.dims_used()), sw),
+                   replay=replay, found_input=True)
+
+
 # ----------------------------------------------------------------------------------------------
 def build(ctx):
     cbin = ctx.cc("drv", [H / "drv.c"], repo_srcs=["linalg.c"], mode="asan")
     ml = ctx.extract("C09/Extract.v", ["C09/extracted/linalg_model.ml", "C09/extracted/linalg_model.mli"])
     mbin = ctx.ocaml_build("mdrv", ml[::-1] + [H / "mdrv.ml"])
+    ctx.__dict__["_c09_ml"] = ml[::-1]
     return cbin, mbin
 
 
 MY_V = ["C09/LinalgDefs.v", "C09/LinalgSpec.v", "C09/LinalgFloat.v", "C09/LinalgLemmas.v", "C09/LinalgPatProofs.v",
-        "C09/LinalgTProofs.v", "C09/LinalgMulProofs.v", "C09/LinalgRing.v", "C09/LinalgExamples.v", "C09/Extract.v",
+        "C09/LinalgTProofs.v", "C09/LinalgMulProofs.v", "C09/LinalgRing.v", "C09/LinalgWide.v", "C09/LinalgWideProofs.v",
+        "C09/LinalgExamples.v", "C09/Extract.v",
         "Properties_C09.v"]
 
 
@@ -603,8 +851,15 @@ def run(ctx):
         "extraction with ExtrOcamlBasic only (nat/Z/positive stay inductives) + harness/C09/mdrv.ml (parsing/printing)",
         "harness/C09/drv.c, gcc, ASan/UBSan, canary cells (48 on each side of the result array), fetestexcept",
         "checks/C09.py reference definitions (exact Python integers) used as search oracle and evaluated on every case",
-        "model abstractions: a_uint/a_size as nat (no counter exceeds max(m,n); products index existing arrays); "
+        "model abstractions: integer VALUES are carried in nat, but every offset expression is evaluated with the C's type "
+        "(a_uint: wrap mod 2^32, a_size: wrap mod 2^64; sites listed in LinalgDefs.v) and proved not to wrap for dimensions < 2^32; "
+        "pointer arithmetic (*E++, A += n, x + c_r) is an element offset without wrap; loop counters are bounded by their guards; "
         "__restrict inputs are immutable lists; identical row bodies of the square and rectangular variants share one model definition",
+        "offset WIDTH is exercised by the tie only for a_real_diag1/diag2 (wide run, matrices up to 2^34 cells, sparse); for T1, T2, diag "
+        "and the four products a run with an offset >= 2^32 needs >= 32 GiB of touched memory and is not made: there the a_size casts "
+        "are modelled and proved sufficient, and a narrowing of one of them would only be seen by reading the C against LinalgDefs.v",
+        "harness/C09/wdrv.c (mmap MAP_NORESERVE + PROT_NONE pages), harness/C09/wmdrv.ml; LinalgWide.v is a second hand-written model of "
+        "diag1/diag2, tied to the list model by theorems (same offset expression for all arguments, same results on common arrays)",
         "same Gallina term instantiated at Z (tie), PrimFloat (bit-exact tie) and arbitrary T (theorems)",
     ])
     ctx.cov["model_write_counts_checked"] = len(cases) - len(nw_bad)
@@ -630,6 +885,11 @@ def run(ctx):
     dis = set(disagree)
     for i, why in sorted(fails, key=lambda f: (f[0] not in dis, f[0])):
         report_failure(ctx, cbin, cases[i], c_lines[i], why, m_res[i][0])
+    # wide run (diag1/diag2 beyond 2^32 cells)
+    try:
+        wide_tie(ctx, ctx.__dict__["_c09_ml"])
+    except vlib.CheckError as e:
+        ctx.tie_broken("wide tie could not run: " + str(e)[:600])
     # bit-exact float run
     try:
         fcases, usable, bad, flines, flagged = float_tie(ctx)
@@ -649,6 +909,16 @@ def run(ctx):
 def replay(ctx, path):
     obj = json.loads(Path(path).read_text())
     r = obj.get("replay", obj)
+    if r.get("wide"):
+        c = parse_wcase(r["case_line"])
+        cbin = ctx.cc("wdrv", [H / "wdrv.c"], repo_srcs=["linalg.c"], mode="asan")
+        ln = run_c(cbin, [c])[0]
+        why = woracle(c, ln)
+        print("case    :", c.line()[:400])
+        print("C       :", ln)
+        print("expected:", c.expected(), "(non-zero result cells)")
+        print("property:", "VIOLATED - " + why if why else "holds on this case")
+        return 1 if why else 0
     c = parse_case(r["case_line"])
     cbin, mbin = build(ctx)
     ln = run_c(cbin, [c])[0]
@@ -662,16 +932,28 @@ def replay(ctx, path):
 
 
 META = {
-    "text": "Rocq theorems for ALL dimensions >= 0 (m<n, m=n, m>n, inner dimension 1) and ALL contents over an arbitrary "
-            "element type: the four product variants return exactly the defining sums with the documented operand shapes, "
-            "T1/T2 are exact and involutive, the 13 identity/triangle/diagonal routines produce exactly their pattern, every "
-            "model run is Ok (no out-of-bounds read or write on exactly-sized arrays, fuel never exhausted) with the stated "
-            "number of stores; ring-level corollaries ((YX)^T = X^T Y^T, identity is a unit) over any ring_theory, Z and R. "
-            "Tie: model extracted at Z vs the C on integer-valued doubles (exact, FP flags checked, canary cells, ASan/UBSan), "
-            "all small shapes exhaustively, plus a bit-exact PrimFloat run on arbitrary doubles.",
-    "note": "Trusted: Coq kernel/vm_compute; extraction (ExtrOcamlBasic only) + drivers; the cursor-level model "
-            "coq/C09/LinalgDefs.v is hand-written and tied by correspondence on the generated shapes only; a_uint/a_size "
-            "modelled as nat; memory safety of the C observed (guards, ASan), proved only of the model. Real-number axioms only "
-            "under the two R instances.",
-    "technique": "Rocq proof (loop invariants over cursor arithmetic, induction on dimensions) + extracted-model/PrimFloat vs C correspondence",
+    "text": "Rocq theorems over an arbitrary element type, for ALL contents and ALL dimensions an a_uint can hold (0 included, m<n, m=n, "
+            "m>n, inner dimension 1; hypothesis U32 d, i.e. d < 2^32, exactly on the dimensions that enter an integer offset computation): "
+            "the four product variants return exactly the defining sums with the documented operand shapes and equal mulmm on operands "
+            "transposed by T2; T1/T2 are exact, involutive and agree on squares; the 13 identity/triangle/diagonal routines produce exactly "
+            "their pattern; every model run is Ok (no out-of-bounds read or write on exactly-sized arrays, fuel never exhausted, none of the "
+            "a_uint/a_size offset computations wraps) with the stated number of stores; ring-level corollaries ((YX)^T = X^T Y^T, eye1 is a "
+            "left/right unit, summation order irrelevant) over any ring_theory, instantiated at Z and R. a_real_diag1/diag2 are modelled a "
+            "second time with binary offsets and a sparse matrix (LinalgWide.v): same offset expression as the list model for all arguments, "
+            "no wrap in 64 bit, wrap in 32 bit (witness n=65537), same results as the list model. "
+            "Tie (correspondence, not proof): list model extracted at Z vs the C on integer-valued doubles (exact, FP flags checked, canary "
+            "cells, ASan/UBSan), every shape of every routine up to a bound exhaustively plus random larger ones; the same Gallina term at "
+            "PrimFloat vs the C bit for bit on arbitrary doubles; N-indexed model vs the C for diag1/diag2 on sparse matrices of 2^32..2^34 "
+            "cells (n = 65535..65538, 2^31, UINT_MAX). The exact integer definition of every routine is evaluated on all C outputs.",
+    "note": "Trusted: Coq kernel/vm_compute; extraction (ExtrOcamlBasic only) + OCaml/C drivers; gcc, ASan/UBSan, mmap. The cursor-level "
+            "models coq/C09/LinalgDefs.v and LinalgWide.v are hand-written and tied to the C by correspondence on the generated shapes only. "
+            "a_uint is modelled as 32 bit and a_size as 64 bit with explicit wrap at every integer offset computation (theorems hold for "
+            "dimensions < 2^32 - exactly the representable ones); pointer steps are element offsets without wrap; integer values are carried "
+            "in nat. The tie exercises offsets >= 2^32 only for diag1/diag2; for T1, T2, diag and the products that would need >= 32 GiB of "
+            "touched memory, so a narrowing of their a_size casts is covered by the model+proof but NOT by the correspondence run. "
+            "Memory safety of the C is observed (guards, ASan), proved only of the model. A pointer more than one past the end is formed (never "
+            "dereferenced) by `y += n` in a_real_mulTT; the model treats it as a plain offset. Real-number axioms only under the R instances.",
+    "technique": "Rocq proof (loop invariants over cursor arithmetic with explicit 32/64-bit wrap, induction on dimensions) + "
+                 "extracted-model (Z, N-indexed sparse) and PrimFloat vs C correspondence",
+    "category": "proof",
 }
